@@ -21,11 +21,12 @@ type World struct {
 	anon       int
 	typeTags   map[string]int
 	ufs        map[string]bool
+	heapTypes  map[string]types.Type
 }
 
 func NewWorld() *World {
 	return &World{declared: map[string]bool{}, structName: map[string]string{}, structType: map[string]*types.Struct{},
-		strLits: map[string]Term{}, typeTags: map[string]int{}, ufs: map[string]bool{}}
+		strLits: map[string]Term{}, typeTags: map[string]int{}, ufs: map[string]bool{}, heapTypes: map[string]types.Type{}}
 }
 
 func sanitize(s string) string {
@@ -53,8 +54,13 @@ func sanitize(s string) string {
 func typeKey(t types.Type) string {
 	s := types.TypeString(t, func(p *types.Package) string {
 		path := p.Path()
-		if i := strings.LastIndex(path, "/"); i >= 0 {
-			path = path[i+1:]
+		if strings.HasPrefix(path, "github.com/Vedant9500/WTF/internal/") {
+			return strings.TrimPrefix(path, "github.com/Vedant9500/WTF/internal/")
+		}
+		if strings.HasPrefix(path, "github.com/") || strings.HasPrefix(path, "gopkg.in/") {
+			if i := strings.LastIndex(path, "/"); i >= 0 {
+				return path[i+1:]
+			}
 		}
 		return path
 	})
@@ -112,7 +118,7 @@ func (w *World) UF(name string, ret string, args ...Term) Term {
 
 func (w *World) StrLit(s string) Term {
 	if s == "" {
-		return Term{"str.empty", SStr}
+		return Term{"s.empty", SStr}
 	}
 	if t, ok := w.strLits[s]; ok {
 		return t
@@ -276,7 +282,7 @@ func (w *World) Zero(t types.Type) Term {
 		case u.Info()&types.IsFloat != 0:
 			return Term{"0.0", SReal}
 		case u.Info()&types.IsString != 0:
-			return Term{"str.empty", SStr}
+			return Term{"s.empty", SStr}
 		}
 		return w.Const("opaque.zero", "Opaque")
 	case *types.Pointer, *types.Map, *types.Chan:
@@ -359,7 +365,7 @@ func (w *World) literalDecls() string {
 	for i, s := range lits {
 		_ = i
 		t := w.strLits[s]
-		fmt.Fprintf(&b, "(declare-const %s Str) ; %q\n(assert (= (str.len %s) %d))\n", t.S, trunc(s, 60), t.S, len(s))
+		fmt.Fprintf(&b, "(declare-const %s Str) ; %q\n(assert (= (s.len %s) %d))\n", t.S, trunc(s, 60), t.S, len(s))
 	}
 	if len(lits) > 1 {
 		names := make([]string, 0, len(lits)+1)
